@@ -565,7 +565,15 @@ func maxPrimerLen(ms []markerM) (n int, indel bool) {
 // genRead draws one read of the sheet; classes describe how it was built.
 func genRead(t *rapid.T, sh Sheet, ms []markerM) (Read, []string) {
 	alpha := pick(t, "alphabet", gen.ACGT, gen.ACGT, gen.ACGT, "ac", "gt", "at")
-	kind := pick(t, "read_kind", "amplicon", "amplicon", "amplicon", "amplicon", "amplicon", "amplicon", "chimera", "chimera", "partial", "partial", "random", "mosaic")
+	kind := pick(t, "read_kind", "amplicon", "amplicon", "amplicon", "amplicon", "amplicon", "amplicon", "chimera", "chimera", "partial", "partial", "random")
+	return genReadOf(t, sh, ms, alpha, kind)
+}
+
+// genReadMosaic is genRead with mosaic reads (genMosaic) added to the mixture; the
+// in-process property has a test of its own for them (TestPropMosaic).
+func genReadMosaic(t *rapid.T, sh Sheet, ms []markerM) (Read, []string) {
+	alpha := pick(t, "alphabet", gen.ACGT, gen.ACGT, gen.ACGT, "ac", "gt", "at")
+	kind := pick(t, "read_kind", "amplicon", "amplicon", "amplicon", "amplicon", "amplicon", "chimera", "chimera", "partial", "partial", "random", "mosaic", "mosaic", "mosaic")
 	return genReadOf(t, sh, ms, alpha, kind)
 }
 
